@@ -27,6 +27,7 @@ The D2 shape (no drain) is kept as `d2_regression_counterexample`: the theorem i
 -/
 import KafkaVerif.Lemmas.ConnOps
 import KafkaVerif.Model.ConnSpecs
+import KafkaVerif.Spec.ConnFrames
 
 namespace KV.C11
 open KV KV.Reader KV.ConnOps
@@ -145,6 +146,32 @@ theorem covered_ops_good : coveredOps.all (fun n => goodFor n (versionsFor n)) =
 theorem produce_good : goodFor "produce" [2, 3, 7] = true := by decide
 
 theorem fetch_fixed : fetchFixed = true := by decide
+
+/-! ### the regenerated parser programs are the Kafka layouts (Spec/ConnFrames.lean, transcribed independently) -/
+
+open KV.Gen.ConnLegacy KV.Spec.ConnFrames in
+/-- (operation, versions, generated program): with the version conditionals resolved, the program read by the Go code
+is token-for-token the layout of the protocol guide -/
+def genSpecPairs : List (String × List Nat × List Step) :=
+  [ ("findCoordinator", [0], findCoordinatorResponseV0), ("heartbeat", [0], heartbeatResponseV0),
+    ("joinGroup", [1, 2], joinGroupResponse), ("leaveGroup", [0], leaveGroupResponseV0),
+    ("listGroups", [1], listGroupsResponseV1), ("offsetCommit", [2], offsetCommitResponseV2),
+    ("offsetFetch", [1], offsetFetchResponseV1), ("syncGroup", [0], syncGroupResponseV0),
+    ("saslHandshake", [0, 1], saslHandshakeResponseV0), ("saslAuthenticate", [0], saslAuthenticateResponseV0),
+    ("createTopics", [0, 1, 2], createTopicsResponse), ("deleteTopics", [0, 1], deleteTopicsResponse),
+    ("metadata", [1], metadataResponseV1), ("metadata", [6], metadataResponseV6), ("brokers", [1], metadataResponseV1) ]
+
+open KV.Spec.ConnFrames in
+theorem gen_matches_spec :
+    genSpecPairs.all (fun p => p.2.1.all fun v => (layout p.1 v).map (renderSteps v) == some (renderSteps v p.2.2)) = true := by
+  decide
+
+open KV.Gen.ConnLegacy KV.Spec.ConnFrames in
+theorem gen_partitions_match_spec :
+    renderSteps 1 partitionOffsetV1 = renderSteps 1 listOffsetsPartition ∧
+    renderSteps 2 produceResponsePartitionV2 = renderSteps 2 (producePartition 2) ∧
+    renderSteps 3 produceResponsePartitionV2 = renderSteps 3 (producePartition 3) ∧
+    renderSteps 7 produceResponsePartitionV7 = renderSteps 7 (producePartition 7) := by decide
 
 /-! ### D2: what the fix repairs (regression witness; the unfixed shape violates the theorem) -/
 
